@@ -63,7 +63,7 @@ var flags = []string{metadata.Sync, metadata.Connected}
 
 // Also "reported" for a target, compared for isolation only.
 var extraInts = []string{metadata.Size, metadata.LatestTimestamp}
-var extraStrs = []string{metadata.ConnectedAddr, metadata.ConnectError}
+var extraStrs = []string{metadata.ConnectedAddr, metadata.ConnectError, metadata.ServerName}
 
 // ---- path set (identical for every target) ---------------------------------
 
@@ -353,6 +353,11 @@ type harness struct {
 	future  int64 // future threshold in ns (0 = off)
 	leaves  []int // the leaf shapes this history writes (all targets alike)
 	evDrv   bool
+	srvName string // cache.WithServerName (""= option not used)
+	// initStr: the string-valued metadata of a target right after it was created.
+	initStr   map[string]string
+	refreshed map[string]bool // an UpdateMetadata ran since the target was created
+	connErr   map[string]bool // ConnectError was reported since the target was created
 
 	feed    []*pb.Notification
 	feedBad int
@@ -374,7 +379,7 @@ func (h *harness) witness() interface{} {
 	for i, s := range h.steps {
 		strs[i] = s.String()
 	}
-	return map[string]interface{}{"targets": h.names, "leaf_shapes": h.leaves, "future_threshold_ns": h.future, "event_driven": h.evDrv, "steps": h.steps, "history": strs}
+	return map[string]interface{}{"targets": h.names, "server_name": h.srvName, "leaf_shapes": h.leaves, "future_threshold_ns": h.future, "event_driven": h.evDrv, "steps": h.steps, "history": strs}
 }
 
 func (h *harness) fail(sig, what string) {
@@ -558,6 +563,60 @@ func (h *harness) feedIsolation(x string, fe []*pb.Notification) {
 
 // ---- operation post-conditions ------------------------------------------------
 
+// renderStrs renders every string-valued metadata entry of a target.
+func renderStrs(md *metadata.Metadata) string {
+	if md == nil {
+		return "<no metadata>"
+	}
+	var b strings.Builder
+	for _, n := range extraStrs {
+		v, err := md.GetStr(n)
+		fmt.Fprintf(&b, "%s=%q/%v ", n, v, err)
+	}
+	return b.String()
+}
+
+// created records the string metadata a new target starts with and checks the
+// configured server name.
+func (h *harness) created(x, sig string) {
+	md := h.c.Metadata()[x]
+	h.initStr[x] = renderStrs(md)
+	h.refreshed[x], h.connErr[x] = false, false
+	if h.srvName != "" && md != nil {
+		if v, err := md.GetStr(metadata.ServerName); err != nil || v != h.srvName {
+			h.fail(sig, fmt.Sprintf("target %q was created in a cache configured with server name %q but Metadata()[%q] serverName = %q (err %v)", x, h.srvName, x, v, err))
+		}
+	}
+}
+
+// serverNameLeaves: after UpdateMetadata every known target shows the
+// configured server name at meta/serverName.
+func (h *harness) serverNameLeaves(sig, when string) {
+	for _, t := range h.names {
+		if h.present[t] {
+			h.refreshed[t] = true
+		}
+	}
+	if h.srvName == "" {
+		return
+	}
+	for _, t := range h.names {
+		if !h.present[t] {
+			continue
+		}
+		var got *pb.Notification
+		h.c.Query(t, []string{metadata.Root, metadata.ServerName}, func(_ []string, _ *ctree.Leaf, v interface{}) error {
+			got, _ = v.(*pb.Notification)
+			return nil
+		})
+		h.count("servername_leaf_checked", 1)
+		if got == nil || len(got.GetUpdate()) != 1 || got.GetUpdate()[0].GetVal().GetStringVal() != h.srvName {
+			h.fail(sig, fmt.Sprintf("%s: leaf meta/serverName of %q is %s, want %q (Metadata(): %s)", when, t, renderNoti(got), h.srvName, renderStrs(h.c.Metadata()[t])))
+			return
+		}
+	}
+}
+
 func (h *harness) checkMetaInitial(x, when string) {
 	md := h.c.Metadata()[x]
 	if md == nil {
@@ -698,6 +757,21 @@ func (h *harness) checkReset(x string, pre, post map[string]*tsnap, fe []*pb.Not
 	if h.failed {
 		return
 	}
+	// (3b) the string-valued metadata is what it was right after the target was
+	// created (connectedAddress "", connectError unset, serverName as configured).
+	if !h.refreshed[x] {
+		h.count("reset_before_first_updatemetadata", 1)
+		if h.connErr[x] {
+			h.count("reset_after_connecterror_before_first_updatemetadata", 1)
+		}
+	}
+	if init, ok := h.initStr[x]; ok {
+		h.count("reset_string_metadata_compared", 1)
+		if now := renderStrs(h.c.Metadata()[x]); now != init {
+			h.fail("reset-string-metadata-lost", fmt.Sprintf("after Reset(%q) its string metadata is [%s]; right after the target was created it was [%s]", x, now, init))
+			return
+		}
+	}
 	// (4a) Reset removes non-metadata leaves only: a flag / counter leaf under
 	// meta/ that was stored before the Reset is still stored right after it
 	// (its value is judged after UpdateMetadata, when metadata leaves refresh).
@@ -722,6 +796,10 @@ func (h *harness) checkReset(x string, pre, post map[string]*tsnap, fe []*pb.Not
 		return
 	}
 	h.checkMetaInitial(x, fmt.Sprintf("after Reset(%q) and UpdateMetadata", x))
+	if h.failed {
+		return
+	}
+	h.serverNameLeaves("reset-string-metadata-lost", fmt.Sprintf("after Reset(%q) and UpdateMetadata", x))
 }
 
 func renderFeed(fe []*pb.Notification) string {
@@ -889,6 +967,9 @@ func (h *harness) checkFresh(x string, post map[string]*tsnap, fe []*pb.Notifica
 	}
 	if !h.failed {
 		h.checkMetaInitial(x, fmt.Sprintf("after Add(%q)", x))
+	}
+	if !h.failed {
+		h.created(x, "readd-not-fresh")
 	}
 }
 
@@ -1233,7 +1314,13 @@ func (h *harness) run(nsteps int) {
 			if mm != nil {
 				h.fail(mm.sig, mm.what)
 			}
+			if !h.failed {
+				h.serverNameLeaves("string-metadata-leaf-missing", "after UpdateMetadata")
+			}
 			continue
+		}
+		if st.Kind == "connecterror" {
+			h.connErr[st.Target] = true
 		}
 		// Existence of targets other than the addressed one, their leaves, metadata.
 		h.isolation(st.Target, pre, post)
@@ -1299,7 +1386,8 @@ func (h *harness) update(target string, n *pb.Notification) {
 
 func trialBody(r *vlib.Run, trial int, rng *rand.Rand) {
 	r.SaveCurrent(map[string]interface{}{"mode": mode, "trial": trial})
-	h := &harness{r: r, trial: trial, rng: rng, present: map[string]bool{}, cnt: map[string]int64{}}
+	h := &harness{r: r, trial: trial, rng: rng, present: map[string]bool{}, cnt: map[string]int64{},
+		initStr: map[string]string{}, refreshed: map[string]bool{}, connErr: map[string]bool{}}
 	nT := 2 + rng.Intn(3)
 	var initial []string
 	for i := 0; i < nT; i++ {
@@ -1317,6 +1405,9 @@ func trialBody(r *vlib.Run, trial int, rng *rand.Rand) {
 	if rng.Intn(2) == 0 {
 		h.future = 50
 	}
+	if rng.Intn(2) == 0 {
+		h.srvName = []string{"srv-a", "collector.example:9339"}[rng.Intn(2)]
+	}
 	atomic.StoreInt64(&vclock, 1000)
 	var opts []cache.Option
 	if !h.evDrv {
@@ -1324,6 +1415,14 @@ func trialBody(r *vlib.Run, trial int, rng *rand.Rand) {
 	}
 	if h.future > 0 {
 		opts = append(opts, cache.WithFutureThreshold(time.Duration(h.future)))
+	}
+	// The serverName metadata entry is registered process-wide by cache.New; a
+	// trial without the option starts from the unregistered state so that a
+	// trial depends on (seed, mode, trial) only.
+	if h.srvName != "" {
+		opts = append(opts, cache.WithServerName(h.srvName))
+	} else {
+		metadata.UnregisterServerNameMetadata()
 	}
 	ok := false
 	h.guard("setup", func() {
@@ -1346,7 +1445,12 @@ func trialBody(r *vlib.Run, trial int, rng *rand.Rand) {
 	if !ok {
 		return
 	}
-	h.run(r.N(40, 60))
+	for _, tg := range initial {
+		h.created(tg, "new-target-string-metadata")
+	}
+	if !h.failed {
+		h.run(r.N(40, 60))
+	}
 	h.cleanup()
 	r.Eval(1)
 	for k, v := range h.cnt {
@@ -1360,7 +1464,7 @@ func trialBody(r *vlib.Run, trial int, rng *rand.Rand) {
 		for i, s := range h.steps {
 			strs[i] = s.String()
 		}
-		r.Distinct(vlib.Hash("hist", nT, h.future, h.evDrv, fmt.Sprint(h.leaves), strings.Join(strs, ";")))
+		r.Distinct(vlib.Hash("hist", nT, h.future, h.evDrv, h.srvName, fmt.Sprint(h.leaves), strings.Join(strs, ";")))
 		if h.streamJudged {
 			r.Count("histories_nontrivial_with_stream_judged_across_remove", 1)
 		}
@@ -1382,7 +1486,7 @@ func body(r *vlib.Run) {
 func main() {
 	vlib.Main(&vlib.Spec{
 		ID: "C14",
-		Rule: "seeded histories of 40 (thorough 60) operations — update / delete (exact, subtree, wildcard) / multi-update+delete / empty / Sync / Connect / ConnectError / Reset / Remove / Add / UpdateMetadata — over 2-4 targets that share one set of 3, 5 or 9 leaf paths (prefix elements, keyed element, root leaf, origin, deprecated encoding), timestamps around a virtual clock (stale, equal, newer, beyond a future threshold), event-driven emulation on/off, " +
+		Rule: "seeded histories of 40 (thorough 60) operations — update / delete (exact, subtree, wildcard) / multi-update+delete / empty / Sync / Connect / ConnectError / Reset / Remove / Add / UpdateMetadata — over 2-4 targets that share one set of 3, 5 or 9 leaf paths (prefix elements, keyed element, root leaf, origin, deprecated encoding), timestamps around a virtual clock (stale, equal, newer, beyond a future threshold), event-driven emulation on/off, cache.WithServerName in half of the histories, " +
 			"up to 5 STREAM subscribers (one target or \"*\", 6 path shapes) attached at seeded points through subscribe.Server over in-memory streams. After every operation addressed to X every other target's existence, leaves (wire bytes of the stored notifications) and Metadata() values are compared with the state before it, the feed entries of the call must name X only, and Query(\"*\") must equal the union of the per-target queries. " +
 			"Mode concurrent (400 trials quick, 8000 thorough): 2-4 pre-filled targets (3 roots x 60-500 leaves, identical paths), Remove(X) or Reset(X) fired in the middle of a lead subscriber's initial walk or between its target check and its registration (bounded holds at schedule points), while its peer is stalled on its first response (Send gate), while the feed consumer is slow right after a Reset announcement, or at a seeded moment; by seed no periodic refresh (30%), a goroutine looping UpdateMetadata (40%) or that and one looping UpdateSize (30%) with seeded pauses during the whole trial, X's stream reporting Sync/Connect/ConnectError and a few last updates right before the operation; single-target X STREAM (2-3 paths), '*' STREAM, '*' ONCE and other-target STREAM subscribers attached before / while / after; each judged trial is distinct by its sequence of schedule points reached. " +
 			"A history is counted as distinct non-trivial when it contains a Reset of a target that held data leaves and non-initial metadata AND a Remove of a target that held data leaves, each while another target held data leaves; hashed by its operation list.",
@@ -1392,7 +1496,8 @@ func main() {
 			"whole-target delete = a notification with no update and one delete whose prefix names the target, carries no origin and whose index path is \"*\" (or empty)",
 			"the end of a stream is decided by events only: a probe entry passed to Server.Update behind the whole-target delete is either delivered (stream still serving: violation) or the RPC returns; a watchdog of 90 s yields inconclusive",
 			"Add is only issued for a target that is currently unknown; the origin-less data delete \"*\" (which is the whole-target delete by convention) is not generated as a data operation",
-			"cache.Now is a virtual clock advanced by the generator; latestTimestamp, targetSize, connectedAddress and connectError are compared for isolation only, not asserted after Reset",
+			"cache.Now is a virtual clock advanced by the generator; latestTimestamp and targetSize are compared for isolation only, not asserted after Reset",
+			"initial values of the string-valued metadata (connectedAddress, connectError, serverName) = what Cache.Metadata() reports right after the target was created; after Reset they must be the same again, and with a configured server name every known target shows it at meta/serverName after UpdateMetadata. The serverName entry is registered process-wide by cache.New; a history without the option first calls metadata.UnregisterServerNameMetadata so that trials stay reproducible",
 			"right after Reset a meta/ leaf (flags, eight counters) that was stored before the Reset must still be stored (Reset removes non-metadata leaves only); after UpdateMetadata all ten must be stored and show the initial values",
 			"concurrent mode: Remove(X)/Reset(X) run while subscriptions attach and the writers of the OTHER targets run; X's own update stream is stopped before the operation and resumes only after Reset returned (updates racing with Remove/Add of the same target are excluded). Stalled peers (Send gates), a slow feed consumer and bounded holds / seeded delays at the verif schedule points only steer the schedule; verdicts use the responses, the RPC status and the cache at logical quiescence (sentinel of every remaining target AND sync received)",
 			"concurrent mode: a single-target subscription whose Subscribe call overlapped Remove must either be refused with NotFound and no response, or be accepted and then end OK with the whole-target delete as its last response; an accepted one that is still open after Remove returned and quiescence is a violation (decided by events: repeated probe entries through Server.Update are delivered by a stream that still serves). A '*' ONCE query overlapping Remove is not judged, one made after Remove returned must report nothing of the target",
